@@ -160,6 +160,7 @@ PROPS = {
         "level_text": "Decides that the fragment cursor never leaves the fragment list and every loop terminates on its own exit test, for all 10 message files; not the value equivalence.",
         "level_note": "companion count inferred from struct message fields (cont/clen), locals loaded from them, or the integer parameter following an iovec parameter",
         "rules": [
+            {"run": rules_path.run_fragall, "floor": 3, "use_anchor_files": True},
             {"run": rules_path.run_arraybound, "floor": 2, "use_anchor_files": True},
             {"run": rules_path.run_steppair, "floor": 1, "use_anchor_files": True},
             {"run": rules_path.run_cursor, "floor": 6, "use_anchor_files": True},
@@ -178,6 +179,7 @@ PROPS = {
         "level_text": "Termination and 'source cursor stays inside the caller's fragment list' for every decoder loop; nothing about the decoded bytes.",
         "level_note": "the destination cursor (dvec) has no separate count: its bound is the relational invariant stated in the source comment and is not decided",
         "rules": [
+            {"run": rules_path.run_cursorsync, "floor": 6, "use_anchor_files": True},
             {"run": rules_path.run_progress, "floor": 15, "use_anchor_files": True},
             {"run": rules_path.run_cursor, "floor": 6, "use_anchor_files": True},
             {"run": rules_path.run_resumesave, "floor": 2, "use_anchor_files": True},
